@@ -275,6 +275,15 @@ func NewManager(cfg ManagerConfig, logger *zap.Logger) (*Manager, error) {
 		portEnd = 65535
 	}
 
+	// Ports are 16-bit and every subscriber gets one block of portsPerSub ports
+	// inside [portStart, portEnd]; AllocateNAT converts block bounds to uint16.
+	if portStart < 1 || portEnd > 65535 || portStart > portEnd {
+		return nil, fmt.Errorf("invalid NAT port range %d-%d (must satisfy 1 <= start <= end <= 65535)", portStart, portEnd)
+	}
+	if portsPerSub < 1 || portsPerSub > portEnd-portStart+1 {
+		return nil, fmt.Errorf("invalid ports per subscriber %d for port range %d-%d", portsPerSub, portStart, portEnd)
+	}
+
 	return &Manager{
 		iface:              cfg.Interface,
 		bpfPath:            bpfPath,
@@ -315,6 +324,14 @@ func (m *Manager) AddPublicIP(ip net.IP) error {
 
 	m.poolMu.Lock()
 	defer m.poolMu.Unlock()
+
+	// A public address must appear only once: two pool entries for one address
+	// would hand out the same port blocks of that address to different subscribers.
+	for i := range m.pool {
+		if m.pool[i].PublicIP.Equal(ip4) {
+			return fmt.Errorf("public IP %s is already in the NAT pool", ip4.String())
+		}
+	}
 
 	// Calculate max subscribers for this IP
 	totalPorts := m.portRangeEnd - m.portRangeStart + 1
